@@ -87,6 +87,11 @@ def read_candle(c, name):
 
 
 def run_lib(scn):
+    with cm.numpy_numbers(scn.get("numpy")):
+        return _run_lib(scn)
+
+
+def _run_lib(scn):
     from hexital import indicators as I
     from hexital.core.hexital import Hexital
 
@@ -138,7 +143,7 @@ def run_lib(scn):
         else:
             ind = cls(candles=candles, **kw)
             ind.calculate()
-        out = ind.as_list()
+        out = [cm.pyval(r) for r in ind.as_list()]
         x = [read_candle(c, kw.get("input_value")) for c in ind.candles] if kw.get("input_value") else None
     except Exception as e:
         return {"exc": type(e).__name__, "err": repr(e)[:160], "out": None, "x": None}
@@ -706,8 +711,10 @@ def gen_scn(rng, idx, prop, params):
             scn["live"]["tf"] = tf
             meta["live"] = "appends+tf"
     scn.update(kwargs=kw, mode=mode, stream=rows)
+    if rng.random() < 0.08 and cm.have_numpy():
+        scn["numpy"] = rng.choice([True, "mixed"])   # numpy.float64 prices and volumes (all candles, or every other one)
     meta.update(kind=kind, mode=mode, price=smeta["price"], period=("2-5" if p <= 5 else "6-12" if p <= 12 else "13-25" if p <= 25 else "50"),
-                rv=kw["round_value"])
+                rv=kw["round_value"], numpy=bool(scn.get("numpy")))
     return scn, meta
 
 
